@@ -41,7 +41,8 @@ def required(tier):
             'get:create_file:reloaded:new', 'iter:append', 'iter:read',
             'add:in-memory store refused (would evict)', 'save:in-memory->file',
             'get:beyond-end:append', 'get:beyond-end:read',
-            'assoc-lag:append-continues-base-list',
+            'assoc-lag:append-continues-base-list', 'iter-overlapping:read',
+            'iter-overlapping:append',
         ],
         'counters': {'evictions': 1, 'append_old_reload': 1, 'append_new_reload': 1},
         'evaluations': 500,
@@ -82,8 +83,10 @@ def one_history(rng: random.Random, workdir: Path, rec, k: int):
                     h.op_get(rng.randrange(n))
                 else:
                     h.op_get(n + rng.randint(0, 3))
-            elif r < 0.70:
+            elif r < 0.66:
                 h.op_iter()
+            elif r < 0.70:
+                h.op_iter_overlapping()
             elif r < 0.75:
                 h.check_len()
             elif r < 0.80 and h.writable and h.session != 'create_mem' and n > 0:
